@@ -322,7 +322,7 @@ package multiplex
 //@   flag trusted
 //@   requires sesh != nil
 //@   modifies *
-//@   preserves Frame.StreamID, Frame.Seq, Frame.Closing, Frame.Payload, Stream.id, Stream.session, Session.sb, SessionConfig.MsgOnWireSizeLimit, Session.maxStreamUnitWrite, Session.streamSendBufferSize, SessionConfig.Unordered, SessionConfig.Valve, SessionConfig.Singleplex, Obfuscator.payloadCipher, switchboard.session, switchboard.valve, heap(B_Slice), heap(F_server.ActiveUser.panel), heap(F_server.ActiveUser.sessions), heap(F_server.ActiveUser.valve), heap(F_server.ActiveUser.bypass), heap(F_server.userPanel.Manager), heap(F_server.userPanel.activeUsers), heap(F_server.userPanel.usageUpdateQueue), heap(MD_Int_Int), heap(MV_Int_Int), heap(MC)
+//@   preserves Frame.StreamID, Frame.Seq, Frame.Closing, Frame.Payload, Stream.id, Stream.session, Session.sb, SessionConfig.MsgOnWireSizeLimit, Session.maxStreamUnitWrite, Session.streamSendBufferSize, SessionConfig.Unordered, SessionConfig.Valve, SessionConfig.Singleplex, Obfuscator.payloadCipher, switchboard.session, switchboard.valve, heap(B_Slice), heap(F_server.ActiveUser.panel), heap(F_server.ActiveUser.sessions), heap(F_server.ActiveUser.valve), heap(F_server.ActiveUser.bypass), heap(F_server.userPanel.Manager), heap(F_server.userPanel.activeUsers), heap(F_server.userPanel.usageUpdateQueue), heap(MD_Int_Pmultiplex.Session), heap(MV_Int_Pmultiplex.Session), heap(MC)
 
 //@ func (*Session).streamCountDecr
 //@   flag inline
